@@ -934,9 +934,7 @@ static int op_note_used (const op_t *o, int which) {
 
 /* a client thread-local object whose destructor itself uses nsync (LOCK-ONLY with S.p[5]): it runs at thread exit, in an order
    relative to nsync's own per-thread destructor that POSIX leaves open (the runtime makes it a recorded choice) */
-extern int nsim_sys_pthread_key_create (pthread_key_t *key, void (*dtor) (void *));
-extern int nsim_sys_pthread_setspecific (pthread_key_t key, const void *v);
-static pthread_key_t client_key;
+static unsigned client_key;
 static int client_key_made;
 static void client_tls_dtor (void *v) {
 	int reader = (S.p[5] == 2);
